@@ -224,16 +224,13 @@ func runParent(p Property, scs []Sc, tier string, seed int64, n int, evidencePat
 	defer os.RemoveAll(tmp)
 	if len(scs) < n && !anySplit(scs) {
 		n = len(scs)
-		if n == 0 {
-			n = 1
-		}
 	}
 	type proc struct {
 		cmd *exec.Cmd
 		out string
 	}
 	var procs []proc
-	for i := 0; i < n; i++ {
+	for i := 0; i < n && len(scs) > 0; i++ {
 		outf := filepath.Join(tmp, fmt.Sprintf("w%d.json", i))
 		args := []string{"-worker", strconv.Itoa(i), "-nshards", strconv.Itoa(n), "-tier", tier, "-out", outf, "-tmp", tmp}
 		if only != "" {
@@ -389,6 +386,7 @@ func runParent(p Property, scs []Sc, tier string, seed int64, n int, evidencePat
 		totStates += extra.States
 		totTrans += extra.Transitions
 		totExec += extra.Evaluations
+		distinct += int(extra.Distinct)
 		if !extra.Complete {
 			allComplete = false
 		}
